@@ -479,5 +479,13 @@ def r07_11(ctx):
     ctx.ok(construct, f.loc(), atoms=ac.atoms)
 
 
+def r07_12(ctx):
+    """R07.12 JSON agrees with the other formats on empty values: null is emitted only for a number option without a value, and a
+    number is converted only from a non-empty text (C06 R06.13) - an empty string option is \"\" everywhere."""
+    from . import c06
+    from .common import delegate
+    delegate(ctx, c06.r06_13, lambda c: True)
+
+
 def rules():
-    return [("R07.11", r07_11, 1), ("R07.10", r07_10, 6), ("R07.9", r07_9, 6), ("R07.1", r07_1, 13), ("R07.6", r07_6, 8), ("R07.2", r07_2, 3), ("R07.3", r07_3, 4), ("R07.5", r07_5, 3), ("R07.7", r07_7, 4), ("R07.8", r07_8, 2)]
+    return [("R07.12", r07_12, 3), ("R07.11", r07_11, 1), ("R07.10", r07_10, 6), ("R07.9", r07_9, 6), ("R07.1", r07_1, 13), ("R07.6", r07_6, 8), ("R07.2", r07_2, 3), ("R07.3", r07_3, 4), ("R07.5", r07_5, 3), ("R07.7", r07_7, 4), ("R07.8", r07_8, 2)]
